@@ -211,29 +211,29 @@ func VH_c05_upd_attr_pair() {
 	vReach("end")
 }
 
-func VH_c05_upd_attr_origin() { c05updAttr(1, 0) }
-func VH_c05_upd_attr_aspath() { c05updAttr(2, 1) }
-func VH_c05_upd_attr_nexthop() { c05updAttr(3, 0) }
-func VH_c05_upd_attr_med() { c05updAttr(4, 0) }
-func VH_c05_upd_attr_localpref() { c05updAttr(5, 0) }
-func VH_c05_upd_attr_atomic() { c05updAttr(6, 0) }
-func VH_c05_upd_attr_aggregator() { c05updAttr(7, 1) }
+func VH_c05_upd_attr_origin()      { c05updAttr(1, 0) }
+func VH_c05_upd_attr_aspath()      { c05updAttr(2, 1) }
+func VH_c05_upd_attr_nexthop()     { c05updAttr(3, 0) }
+func VH_c05_upd_attr_med()         { c05updAttr(4, 0) }
+func VH_c05_upd_attr_localpref()   { c05updAttr(5, 0) }
+func VH_c05_upd_attr_atomic()      { c05updAttr(6, 0) }
+func VH_c05_upd_attr_aggregator()  { c05updAttr(7, 1) }
 func VH_c05_upd_attr_communities() { c05updAttr(8, 0) }
-func VH_c05_upd_attr_originator() { c05updAttr(9, 0) }
+func VH_c05_upd_attr_originator()  { c05updAttr(9, 0) }
 func VH_c05_upd_attr_clusterlist() { c05updAttr(10, 0) }
-func VH_c05_upd_attr_mpreach() { c05updAttr(14, 2) }
-func VH_c05_upd_attr_mpunreach() { c05updAttr(15, 2) }
-func VH_c05_upd_attr_extcomm() { c05updAttr(16, 0) }
-func VH_c05_upd_attr_as4path() { c05updAttr(17, 1) }
-func VH_c05_upd_attr_as4aggr() { c05updAttr(18, 1) }
-func VH_c05_upd_attr_pmsi() { c05updAttr(22, 0) }
+func VH_c05_upd_attr_mpreach()     { c05updAttr(14, 2) }
+func VH_c05_upd_attr_mpunreach()   { c05updAttr(15, 2) }
+func VH_c05_upd_attr_extcomm()     { c05updAttr(16, 0) }
+func VH_c05_upd_attr_as4path()     { c05updAttr(17, 1) }
+func VH_c05_upd_attr_as4aggr()     { c05updAttr(18, 1) }
+func VH_c05_upd_attr_pmsi()        { c05updAttr(22, 0) }
 func VH_c05_upd_attr_tunnelencap() { c05updAttr(23, 0) }
-func VH_c05_upd_attr_ip6extcomm() { c05updAttr(25, 0) }
-func VH_c05_upd_attr_aigp() { c05updAttr(26, 0) }
-func VH_c05_upd_attr_ls() { c05updAttr(29, 0) }
-func VH_c05_upd_attr_largecomm() { c05updAttr(32, 0) }
-func VH_c05_upd_attr_prefixsid() { c05updAttr(40, 0) }
-func VH_c05_upd_attr_unknown() { c05updAttr(250, 0) }
+func VH_c05_upd_attr_ip6extcomm()  { c05updAttr(25, 0) }
+func VH_c05_upd_attr_aigp()        { c05updAttr(26, 0) }
+func VH_c05_upd_attr_ls()          { c05updAttr(29, 0) }
+func VH_c05_upd_attr_largecomm()   { c05updAttr(32, 0) }
+func VH_c05_upd_attr_prefixsid()   { c05updAttr(40, 0) }
+func VH_c05_upd_attr_unknown()     { c05updAttr(250, 0) }
 
 // all three sections free, short total: covers the hand-over arithmetic between the loops
 func VH_c05_upd_all() {
